@@ -1,18 +1,23 @@
 #!/bin/bash
-# confirm_mutant.sh <worktree> <mutdir> : confirms (a) builds, (b) suite passes, (c) demo fails with / passes without the patch
+# confirm_mutant.sh <mutdir> : in a scratch worktree of /repo confirms (a) the patch applies and builds, (b) the existing
+# suite passes with it, (c) the demonstration fails with the patch and passes without.  Prints CONFIRMED or the reason.
 export GOFLAGS=-mod=mod GOPROXY=off GOSUMDB=off GOTOOLCHAIN=local
-WT=$1; M=$2
-cd $WT || exit 2
-git checkout -q -- . ; git clean -fdq -e 'mut_*' .
-place=$(head -1 $M/demo_test.go.txt | sed -n 's#.*place in: *\([^ ]*\).*#\1#p'); place=${place%/}
+M=$(readlink -f "$1")
+WT=$(mktemp -d /tmp/ikeconf.XXXXXX)
+git -C /repo worktree add --detach "$WT" HEAD -q -f || { echo "cannot create worktree"; exit 2; }
+trap 'git -C /repo worktree remove --force "$WT" 2>/dev/null; rm -rf "$WT"' EXIT
+cd "$WT" || exit 2
+demo=$M/demo_test.go.txt; [ -f "$demo" ] || demo=$(ls $M/*demo*test*.go* 2>/dev/null | head -1)
+place=$(head -3 "$demo" | sed -n 's#.*place in: *\([^ ]*\).*#\1#p' | head -1)
 [ -z "$place" ] && { echo "no place-in comment"; exit 2; }
-[ "$place" = "." ] || [ "$place" = "root" ] && place="."
-git apply $M/patch.diff || { echo "patch does not apply"; exit 2; }
-go build ./... || { echo "BUILD FAILS"; git checkout -q -- .; exit 1; }
-if ! go test -count=1 ./... >/tmp/confirm_suite.log 2>&1; then echo "SUITE FAILS with patch"; tail -5 /tmp/confirm_suite.log; git checkout -q -- .; exit 1; fi
-cp $M/demo_test.go.txt $place/zz_demo_test.go
-if timeout 120 go test -count=1 -run . ./$place >/tmp/confirm_demo1.log 2>&1; then echo "DEMO PASSES with patch (should fail)"; rm -f $place/zz_demo_test.go; git checkout -q -- .; exit 1; fi
+case "$place" in */) dir=${place%/} ;; *.go) dir=$(dirname "$place") ;; *) dir=$place ;; esac
+git apply "$M/patch.diff" || { echo "PATCH DOES NOT APPLY"; exit 1; }
+go build ./... || { echo "BUILD FAILS"; exit 1; }
+if ! go test -vet=off -count=1 ./... >/tmp/confirm_suite.$$ 2>&1; then echo "SUITE FAILS with patch"; tail -5 /tmp/confirm_suite.$$; rm -f /tmp/confirm_suite.$$; exit 1; fi
+rm -f /tmp/confirm_suite.$$
+cp "$demo" "$dir/zz_demo_test.go"
+if timeout 300 go test -vet=off -count=1 ./$dir >/dev/null 2>&1; then echo "DEMO PASSES with patch (should fail)"; exit 1; fi
 git checkout -q -- .
-if ! timeout 120 go test -count=1 ./$place >/tmp/confirm_demo2.log 2>&1; then echo "DEMO FAILS without patch"; tail -5 /tmp/confirm_demo2.log; rm -f $place/zz_demo_test.go; exit 1; fi
-rm -f $place/zz_demo_test.go
+if ! timeout 300 go test -vet=off -count=1 ./$dir >/tmp/confirm_demo.$$ 2>&1; then echo "DEMO FAILS without patch"; tail -5 /tmp/confirm_demo.$$; rm -f /tmp/confirm_demo.$$; exit 1; fi
+rm -f /tmp/confirm_demo.$$
 echo CONFIRMED
